@@ -53,6 +53,8 @@ POISONS = {
                        '[d for d in amount]', '(x.y for x in 5)'],
     'in-with-number': ['"a" in 5', 'description in amount', '1 in amount'],
     'invalid-iso-date': ['field.date > "2025-13-45"', 'txn.date <= "yesterday"'],
+    # a date against a text that is not a date at all - blank included (an empty cell of a statement or of a supplemental row): no value, for == and != too
+    'date-vs-blank-text': ['date != ""', 'not (date == "  ")', 'date != field.memo and field.memo == ""', 'txn.date != "" or false', 'date == "" or true'],
     'date-arithmetic': ['abs(date - "2025-01-01") <= 3', 'date + 1 > date', 'date - txn.date <= 3'],
     'method-misuse': ['description.startswith(5)', 'description.replace(1, 2) == ""', 'amount.lower() == ""', 'description.nosuch() == 1'],
     'wrong-arity': ['contains()', 'split("-") == ""', 'substring(1) == ""', 'round() > 0', 'abs() > 0', 'exists() or true', 'len() > 0'],
@@ -63,7 +65,7 @@ POISONS = {
                                           'len([s.nope for r in rows for s in orders]) == 0'],
     'falsy-non-number-divisor': ['amount / field.nope < 5', 'amount / "" < 5', 'amount % "" == 0', '10 / description.strip("abcdefghijklmnopqrstuvwxyzABCDEFGHIJKLMNOPQRSTUVWXYZ0123456789 .-*#\'") < 1'],
 }
-REF_DECIDES = {'failing-row-in-list-comprehension', 'unknown-name', 'falsy-non-number-divisor', 'division-type', 'arithmetic-on-strings'}
+REF_DECIDES = {'failing-row-in-list-comprehension', 'unknown-name', 'falsy-non-number-divisor', 'division-type', 'arithmetic-on-strings', 'date-vs-blank-text'}
 POSITIONS = ['match-whole', 'match-and', 'match-or', 'let-extra', 'field-extra', 'tag-extra', 'transform', 'variable', 'let-shadows-global']
 
 VIEW_POISONS = ['sum(by("month")) > 100', 'category > 5', 'payments > 3', 'months + "x" > 1', 'nosuchvar > 1', 'total / category > 1',
